@@ -59,11 +59,11 @@ KeepAsked(r) == r.wf /\ r.conn = "ka"
 (* The response the property demands for a request. One record shape:
    st status; ver echoed version; date/server present; cl Content-Length (-1: none); blen body bytes;
    cors: the route's CORS header present; stray: bytes after the body that belong to no response *)
-RD(D, st, ver, cl, blen, cors) ==
-  [st |-> st, ver |-> ver, date |-> TRUE, server |-> TRUE, cl |-> cl, blen |-> blen, cors |-> cors,
+RD(D, st, ver, cl, blen, cors, bid) ==
+  [st |-> st, ver |-> ver, date |-> TRUE, server |-> TRUE, cl |-> cl, blen |-> blen, cors |-> cors, bid |-> bid,
    stray |-> IF "CrlfAfterBody" \in D /\ blen > 0 THEN 2 ELSE 0]
 BareD(D, st, blen) ==     \* error page as produced by error_handler, nothing added
-  [st |-> st, ver |-> "1.1", date |-> FALSE, server |-> FALSE, cl |-> -1, blen |-> blen, cors |-> FALSE,
+  [st |-> st, ver |-> "1.1", date |-> FALSE, server |-> FALSE, cl |-> -1, blen |-> blen, cors |-> FALSE, bid |-> 0,
    stray |-> IF "CrlfAfterBody" \in D /\ blen > 0 THEN 2 ELSE 0]
 
 Len404 == 48   \* "<html><body><h1>404 Not Found</h1></body></html>"
@@ -75,18 +75,20 @@ BodyOf(r) == CASE r.tgt = "plain" -> 5
                [] r.tgt = "empty" -> 0
                [] OTHER -> 0
 
-\* RespD(D, r): the response under the deviation set D; D = {} is what the property demands,
-\* D = Dev is what the code (as modelled) writes.
-RespD(D, r) ==
+\* RespD(D, r, i): the response to script element i = r under the deviation set D; D = {} is what the
+\* property demands, D = Dev is what the code (as modelled) writes.  bid identifies whose body comes
+\* back: i when the echoing route returns request i's own body, 0 for fixed or empty bodies.
+RespD(D, r, i) ==
   IF ~r.wf THEN BareD(D, 400, Len400)
   ELSE IF r.m = "OPTIONS"
        THEN IF Routed(r)
-            THEN RD(D, 204, IF "OptionsVersionFixed" \in D THEN "1.1" ELSE r.ver, -1, 0, r.tgt = "cors")
-            ELSE IF "Options404Bare" \in D THEN BareD(D, 404, Len404) ELSE RD(D, 404, r.ver, Len404, Len404, FALSE)
-       ELSE IF Routed(r) THEN RD(D, 200, r.ver, BodyOf(r), BodyOf(r), r.tgt = "cors")
-            ELSE RD(D, 404, r.ver, Len404, Len404, FALSE)
-Demanded(r) == RespD({}, r)
-Written(r)  == RespD(Dev, r)
+            THEN RD(D, 204, IF "OptionsVersionFixed" \in D THEN "1.1" ELSE r.ver, -1, 0, r.tgt = "cors", 0)
+            ELSE IF "Options404Bare" \in D THEN BareD(D, 404, Len404) ELSE RD(D, 404, r.ver, Len404, Len404, FALSE, 0)
+       ELSE IF Routed(r) THEN RD(D, 200, r.ver, BodyOf(r), BodyOf(r), r.tgt = "cors",
+                                  IF r.tgt = "echo" /\ r.bl > 0 THEN i ELSE 0)
+            ELSE RD(D, 404, r.ver, Len404, Len404, FALSE, 0)
+Demanded(r, i) == RespD({}, r, i)
+Written(r, i)  == RespD(Dev, r, i)
 R408D(D) == BareD(D, 408, Len408)
 R408 == R408D(Dev)
 
@@ -105,7 +107,7 @@ ExpFrom(s, i) ==
   ELSE LET r == s[i] IN
        IF ~IsReq(r) THEN IF HasTimeout THEN <<R408D({})>> ELSE ExpFrom(s, i + 1)
        ELSE IF Panics(r) THEN <<>>
-       ELSE <<Demanded(r)>> \o (IF Keeps(r) THEN ExpFrom(s, i + 1) ELSE <<>>)
+       ELSE <<Demanded(r, i)>> \o (IF Keeps(r) THEN ExpFrom(s, i + 1) ELSE <<>>)
 Expected(s) == ExpFrom(s, 1)
 
 RECURSIVE OpenAfter(_, _)
@@ -212,7 +214,7 @@ Srv_BodyDone ==
 \* a malformed request: 400, then the connection closes
 Srv_Respond400 ==
   /\ open /\ spc = "err400"
-  /\ out' = Append(out, Written(Req)) /\ open' = FALSE
+  /\ out' = Append(out, Written(Req, cur)) /\ open' = FALSE
   /\ UNCHANGED <<script, sent, idling, idles, cliShut, taken, pos, cur, spc>>
 
 \* handler / OPTIONS branch / 404; a panicking handler kills the worker thread, the stream is dropped
@@ -229,7 +231,7 @@ CodeKeeps == IF Req.m = "OPTIONS" /\ ~Routed(Req) /\ Req.wf
 
 Srv_Write ==
   /\ open /\ spc = "write"
-  /\ out' = Append(out, Written(Req))
+  /\ out' = Append(out, Written(Req, cur))
   /\ IF CodeKeeps
      THEN /\ open' = open
           /\ pos' = IF "ReadAheadLost" \in Dev THEN Max(taken, pos) ELSE pos
